@@ -482,9 +482,13 @@ def sequential_part(prop, tier, seed, res):
                 w = dl_.split()
                 cap_ = int(w[2].split("=")[1])
                 h_ = res["extra"].setdefault("victim_slot_histogram", {}).setdefault(str(cap_), [0] * cap_)
+                hc_ = [0] * cap_       # the same, for this one cache instance (one engine, one seed)
                 for x in w[3].split(","):
                     if x != "" and int(x) < cap_:
                         h_[int(x)] += 1
+                        hc_[int(x)] += 1
+                if cap_ >= 2 and sum(hc_) >= 40:
+                    res["extra"].setdefault("victim_slot_per_instance", []).append(dict(case=w[1], cap=cap_, histogram=hc_))
         # monitors on the implementation's traces (plain build only)
         if not s:
             try:
@@ -762,6 +766,13 @@ def spread_check(res):
     with n >= 60*cap evictions at capacity cap, every slot must be chosen at least once
     (P(miss) <= cap*(1-1/cap)^n) and, for cap >= 2, none more than 90% of the time."""
     out = []
+    # one cache instance at a time: 40 or more evictions of one engine that fall on one slot more than 90% of the time
+    # (a uniform source does that with probability < 1e-20 for two slots, less for more)
+    for rec in res["extra"].get("victim_slot_per_instance", []):
+        n = sum(rec["histogram"])
+        if max(rec["histogram"]) > 0.9 * n:
+            out.append("case %s, capacity %d: one instance evicted slot %d in %d of %d evictions (histogram %s)" % (
+                rec["case"], rec["cap"], rec["histogram"].index(max(rec["histogram"])), max(rec["histogram"]), n, rec["histogram"]))
     for cap, h in sorted(res["extra"].get("victim_slot_histogram", {}).items()):
         cap = int(cap)
         n = sum(h)
